@@ -2937,3 +2937,14 @@ def _mod_random(I):
 
 
 STUB_MODULES["random"] = _mod_random
+
+
+# ---- weakref: WeakValueDictionary behaves like a dict as long as the caller keeps its objects alive (every
+# harness does; garbage collection is outside pysym - the checks add native replays that drop their references)
+def _mod_weakref(I):
+    cls = ClassObj(I, "WeakValueDictionary", [I.builtins["object"]], {}, module="weakref")
+    cls.native_ctor = lambda it, a, k: I.call(I.builtins["dict"], list(a), k)
+    return PModule("weakref", {"WeakValueDictionary": cls})
+
+
+STUB_MODULES["weakref"] = _mod_weakref
